@@ -491,11 +491,109 @@ def deductive(ctx):
     from contracts import slurm as SL
     from pyvc.verify import verify, summarize
 
-    summarize(ctx, verify(ctx, SL.verify_exit_code_contract()))
+    res = verify(ctx, SL.verify_exit_code_contract())
+    summarize(ctx, res, replay=lambda rec: replay_verify_exit_code(rec))
+
+
+# State column of `sacct -X -o JobID,State,ExitCode` (slurm manual, JOB STATE CODES)
+SACCT_STATES = ["COMPLETED", "FAILED", "NODE_FAIL", "OUT_OF_MEMORY", "BOOT_FAIL", "DEADLINE", "CANCELLED", "TIMEOUT", "PREEMPTED", "RUNNING", "PENDING", "REQUEUED", "SUSPENDED"]
+
+
+def sacct_verdict_table(ctx):
+    dom = ctx.domain(
+        "sacct verdict table -> SlurmWorker._verify_exit_code",
+        bound=f"state words {SACCT_STATES} x exit code in {{0, 1, 2, 137}} x signal in {{0, 9}}; the real _verify_exit_code with `sacct` answered by the table entry (one line, manual format) and an error file ending in an Exception line",
+        rule="one case per (state, exit code, signal); complete only for COMPLETED with exit code 0; CANCELLED/TIMEOUT/PREEMPTED handed back; RUNNING/PENDING no verdict; everything else a reported failure",
+        exhaustive=True,
+    )
+    for st_ in SACCT_STATES:
+        for ec in (0, 1, 2, 137):
+            for sig in (0, 9):
+                got = native_verify_exit_code(st_, ec, sig)
+                if got[0] == "unparsed":
+                    raise CheckerError(f"sacct line for {st_} not parsed by the worker's own expression: {got[1]!r}")
+                shown = st_[:9] if len(st_) > 10 else st_
+                dom.case((st_, ec, sig), nontrivial=not (st_ == "COMPLETED" and ec == 0), sample={"state": st_, "exit": f"{ec}:{sig}", "answer": list(map(str, got))})
+                for p in exit_code_verdict_problems(shown, ec, got):
+                    ctx.fail(None, f"sacct `{st_} {ec}:{sig}`: {p}", {"sacct_status": st_, "sacct_exit_code": ec, "signal": sig, "kind": "verify_exit_code"}, domain=dom)
+
+
+def native_verify_exit_code(status, exit_code, signal=0):
+    """the real SlurmWorker._verify_exit_code on one sacct answer; -> ('return', value) | ('raise', type name)"""
+    import asyncio
+    import tempfile as _tf
+    import pydra.workers.base as WB
+    from pydra.workers.slurm import SlurmWorker
+
+    shown = status[:9] + "+" if len(status) > 10 else status  # sacct truncates long state names: OUT_OF_ME+
+    line = f"{4242:<13}{shown:>10} {exit_code:>6}:{signal} \n"
+    status = shown.rstrip("+")
+    tmp = Path(_tf.mkdtemp(prefix="vf_c28r_"))
+    err = tmp / "err.txt"
+    err.write_text("some output\nException: boom\n")
+    real = WB.read_and_display_async
+
+    async def fake(*cmd, **kw):
+        return 0, line, ""
+
+    WB.read_and_display_async = fake
+    try:
+        w = SlurmWorker()
+        w.error = {"4242": str(err)}
+        if w._sacct_re.search(line) is None or w._sacct_re.search(line).group("status") != status:
+            return ("unparsed", line)
+        loop = asyncio.new_event_loop()
+        try:
+            return ("return", loop.run_until_complete(w._verify_exit_code("4242")))
+        except Exception as e:  # noqa
+            return ("raise", type(e).__name__)
+        finally:
+            loop.close()
+    finally:
+        WB.read_and_display_async = real
+        shutil.rmtree(tmp, ignore_errors=True)
+
+
+def exit_code_verdict_problems(status, exit_code, got):
+    """the property's clause on one sacct answer (status word, exit code): what _verify_exit_code must answer"""
+    ok = status == "COMPLETED" and exit_code == 0
+    if ok:
+        return [] if got == ("return", True) else [f"scheduler says COMPLETED 0 but the worker answers {got}"]
+    if got == ("return", True):
+        return [f"scheduler says {status} with exit code {exit_code} but the worker reports the job complete"]
+    if status in ("CANCELLED", "TIMEOUT", "PREEMPTED"):
+        return [] if got == ("return", status) else [f"{status} must be handed back for a requeue, got {got}"]
+    if status in ("RUNNING", "PENDING"):
+        return [] if got == ("return", False) else [f"{status} is not a verdict, got {got}"]
+    return [] if got[0] == "raise" else [f"scheduler says {status} {exit_code}: a failure must be reported, got {got}"]
+
+
+def replay_verify_exit_code(rec):
+    """the solver's (candidate) counterexample -> a concrete sacct answer -> the real function"""
+    import z3
+
+    m = rec.get("model")
+    if m is None:
+        return None, False
+    cands = SACCT_STATES
+    tried = []
+    # the abstract status is any word; the candidate only says which of the compared literals it equals (or none):
+    # replay every status word of the bounded scheduler vocabulary with exit codes 0 and 1
+    for st_ in cands:
+        for ec in (0, 1):
+            got = native_verify_exit_code(st_, ec)
+            if got[0] == "unparsed":
+                continue
+            probs = exit_code_verdict_problems(st_, ec, got)
+            tried.append((st_, ec))
+            if probs:
+                return {"sacct_status": st_, "sacct_exit_code": ec, "worker_answer": list(map(str, got)), "problems": probs, "kind": "verify_exit_code"}, True
+    return {"replayed": tried, "kind": "verify_exit_code"}, False
 
 
 def run(ctx):
     deductive(ctx)
+    sacct_verdict_table(ctx)
     _run_bounded(ctx)
 
 
@@ -578,6 +676,16 @@ def _run(ctx):
 
 
 def replay(rec):
+    if rec["case"].get("kind") == "verify_exit_code":
+        c = rec["case"]
+        got = native_verify_exit_code(c["sacct_status"], c["sacct_exit_code"], c.get("signal", 0))
+        shown = c["sacct_status"][:9] if len(c["sacct_status"]) > 10 else c["sacct_status"]
+        probs = exit_code_verdict_problems(shown, c["sacct_exit_code"], got)
+        print(f"replay {PID}: sacct `{c['sacct_status']} {c['sacct_exit_code']}:{c.get('signal', 0)}` -> _verify_exit_code: {got}; problems: {probs}")
+        if probs:
+            print(f"VIOLATION property={PID} replay={rec.get('_path', '')}")
+            return 1
+        return 0
     case = rec["case"]["case"]
     with _HarnessEnv():
         obs = run_case(case)
